@@ -361,6 +361,36 @@ def readPtsLines (L : Lex) : List Line → Except Err (List PtsPoint)
 
 def readPts (L : Lex) (bs : List UInt8) : Except Err (List PtsPoint) := readPtsLines L (scanLines bs)
 
+/-! ## prefix-restriction: the decidable predicate of `no_placeholder_*` and of the oracle `c14.holds.prefix_only` -/
+
+/-- what a decode returns, for comparison: named attribute arrays (one value per vertex / record) and the
+    primitives -/
+structure Summary (V P : Type) where
+  attrs : List (String × List V)
+  prims : List P
+
+/-- how much of the full decode a cut file may return -/
+inductive Mode where
+  /-- record-streamed format (.splat): any list prefix of the records -/
+  | streamed
+  /-- every other format: the complete decode, with every attribute of the full decode -/
+  | complete
+  /-- PTS file declaring ONE point: complete in count, attributes may be missing (the format has no field
+      count: a one-point line cut after ≥ 3 fields is itself a valid file; `pts_prefix`, clause 4) -/
+  | restricted
+deriving DecidableEq, Repr
+
+/-- `m` is a prefix-restriction of `x`: every attribute of `m` is an attribute of `x` whose per-vertex values
+    are a list prefix of `x`'s (equal in count unless streamed); the primitives of `m` are a prefix of
+    `x`'s (equal in count unless streamed); in mode `complete`, `m` carries every attribute of `x` -/
+def prefixOf {V P : Type} [DecidableEq V] [DecidableEq P] (mode : Mode) (m x : Summary V P) : Bool :=
+  m.attrs.all (fun nv =>
+    match x.attrs.lookup nv.1 with
+    | some ws => nv.2.isPrefixOf ws && (mode == .streamed || nv.2.length == ws.length)
+    | none => false)
+  && m.prims.isPrefixOf x.prims && (mode == .streamed || m.prims.length == x.prims.length)
+  && (mode != .complete || x.attrs.all (fun nv => (m.attrs.lookup nv.1).isSome))
+
 /-! ## iteration counts: instrumented readers
 
   `xI` is the loop `x` with an iteration counter threaded through the SAME recursion: it returns the pair
